@@ -45,6 +45,23 @@ struct kase {
 static char key1, key2, dummyval;
 static _Atomic long n_fail, n_obs, n_asserts, n_forks, n_drift, n_helper;
 static int opt_all_crash = 1;
+static _Atomic long progress; static _Atomic long cur_case = -1;
+
+/* no observation and no new case for two minutes: the item under test never ran to completion */
+static void *watchdog(void *a)
+{
+	(void)a; long last = -1; int idle = 0;
+	for (;;) {
+		sleep(5);
+		long p = atomic_load(&progress);
+		if (p != last) { last = p; idle = 0; continue; }
+		if (++idle >= 24) {
+			printf("HANG %ld\n", (long)atomic_load(&cur_case)); fflush(stdout);
+			_exit(71);
+		}
+	}
+	return NULL;
+}
 
 #define FAILF(k, ...) do { if (atomic_fetch_add(&n_fail, 1) < 60) { \
 	char _b[1024]; snprintf(_b, sizeof _b, __VA_ARGS__); printf("FAIL %ld %s\n", (k)->id, _b); } } while (0)
@@ -82,6 +99,7 @@ static int child_status(struct kase *k, int which_not, int qi, unsigned pass_ass
 		}
 		_exit(0);
 	}
+	atomic_fetch_add(&progress, 1);
 	int st = 0;
 	while (waitpid(p, &st, 0) < 0 && errno == EINTR) {}
 	return st;
@@ -101,7 +119,7 @@ static void observe(struct kase *k, const char *tag)
 			printf("DRIFT case %ld: observation %s happened where the model has none\n", k->id, tag);
 		return;
 	}
-	atomic_fetch_add(&n_obs, 1);
+	atomic_fetch_add(&n_obs, 1); atomic_fetch_add(&progress, 1);
 	void *g1 = dispatch_get_specific(&key1), *g2 = dispatch_get_specific(&key2);
 	void *e1 = o->g1 < 0 ? NULL : val_of(o->g1, 1), *e2 = o->g2 < 0 ? NULL : val_of(o->g2, 2);
 	if (g1 != e1) FAILF(k, "%s: dispatch_get_specific(key1) = %p, spec: value set on %s (%p)", tag, g1,
@@ -281,6 +299,7 @@ static void *runner(void *a_)
 		}
 		k->k1 = qset(k1); k->k2 = qset(k2);
 		printf("P %ld\n", k->id);
+		atomic_store(&cur_case, k->id); atomic_fetch_add(&progress, 1);
 		run_case(k);
 		free(k);
 		ran++;
@@ -301,7 +320,8 @@ int main(int argc, char **argv)
 	_dispatch_log("c18");                     /* run the logging dispatch_once before any fork */
 	struct args a = { argv[1], atol(argv[2]), atol(argv[3]) };
 	if (argc >= 5) opt_all_crash = atoi(argv[4]);
-	pthread_t t;
+	pthread_t t, w;
+	pthread_create(&w, NULL, watchdog, NULL);
 	pthread_create(&t, NULL, runner, &a);     /* a plain thread: no current queue, no frames */
 	pthread_join(t, NULL);
 	return 0;
